@@ -69,6 +69,21 @@ UNITS = {
             I(RAW, r'^impl RawTableInner$', 'reserve_rehash_inner', impl='RawTableInner'),
         ],
     ),
+    # C01 / C06 / C14: RawTable::insert and insert_in_slot glue against the contracts of what they call
+    'glue': dict(
+        widths=[16, 8],
+        prelude='preludes/ctrl.rs',
+        prelude_extra='preludes/glue.rs',
+        specs='contracts/glue.vspec',
+        lemmas=['lemmas/ctrl_lemmas.rs', 'lemmas/mask_lemmas.rs', 'lemmas/probe_lemmas.rs', 'lemmas/loop_lemmas.rs'],
+        extra='ctrl_rules',
+        items=[
+            I(TAG, r'^impl Tag$', 'special_is_empty', impl='Tag'),
+            I(RAW, r'^impl < T , A : Allocator > RawTable < T , A >$', 'buckets', impl='RawTable<T>', key='RawTable::buckets'),
+            I(RAW, r'^impl < T , A : Allocator > RawTable < T , A >$', 'insert_in_slot', impl='RawTable<T>', key='RawTable::insert_in_slot'),
+            I(RAW, r'^impl < T , A : Allocator > RawTable < T , A >$', 'insert', impl='RawTable<T>', key='RawTable::insert'),
+        ],
+    ),
     'arith': dict(
         widths=[16, 8],
         prelude='preludes/arith.rs',
@@ -204,8 +219,14 @@ def ctrl_rules(toks, i, out, hit):
                 hit('R6_group_load_of_ctrl_pointer_to_indexed_load')
                 return close_outer + 1
     # *self.ctrl(E) ...
-    if t.text == '*' and seq(i + 1, 'self', '.', 'ctrl', '(') and not (out and (out[-1].kind in ('id', 'num') or out[-1].text in (')', ']'))):
-        close, args = _args_until_close(toks, i + 4)
+    recv_len = 0
+    if t.text == '*' and seq(i + 1, 'self', '.', 'ctrl', '('):
+        recv_len = 1
+    elif t.text == '*' and seq(i + 1, 'self', '.', 'table', '.', 'ctrl', '('):
+        recv_len = 3
+    if recv_len and not (out and (out[-1].kind in ('id', 'num') or out[-1].text in (')', ']'))):
+        recv = [extract.T(x.text, '') for x in toks[i + 1:i + 1 + recv_len]]
+        close, args = _args_until_close(toks, i + 3 + recv_len)
         args = extract.rewrite(args, set(), _HITS, ctrl_rules)
         nxt = toks[close + 1] if close + 1 < n else None
         nxt2 = toks[close + 2] if close + 2 < n else None
@@ -220,14 +241,16 @@ def ctrl_rules(toks, i, out, hit):
                     depth -= 1
                 k += 1
             rhs = extract.rewrite(toks[close + 2:k], set(), _HITS, ctrl_rules)
-            out.extend([extract.T('self', t.gap), extract.T('.', ''), extract.T('ctrl_set', ''), extract.T('(', '')])
+            recv[0].gap = t.gap
+            out.extend(recv + [extract.T('.', ''), extract.T('ctrl_set', ''), extract.T('(', '')])
             out.extend(args)
             out.append(extract.T(',', ''))
             out.extend(rhs)
             out.append(extract.T(')', ''))
             hit('R5_ctrl_pointer_write_to_indexed_write')
             return k  # the ';' is emitted by the caller loop
-        out.extend([extract.T('self', t.gap), extract.T('.', ''), extract.T('ctrl_get', ''), extract.T('(', '')])
+        recv[0].gap = t.gap
+        out.extend(recv + [extract.T('.', ''), extract.T('ctrl_get', ''), extract.T('(', '')])
         out.extend(args)
         out.append(extract.T(')', ''))
         hit('R5_ctrl_pointer_read_to_indexed_read')
@@ -283,11 +306,14 @@ def generate(unit_name, width, outdir):
         meta.append(dict(key=it['key'], file=it['file'], lines=[item['line0'], item['line1']],
                          sha256=item['sha'], tokens=item['ntokens']))
     prelude = open(os.path.join(VERIF, u['prelude'])).read().replace('@WIDTH@', str(width))
+    if u.get('prelude_extra'):
+        prelude += '\n' + open(os.path.join(VERIF, u['prelude_extra'])).read().replace('@WIDTH@', str(width))
     parts = ['// GENERATED by /verif/lib/vunits.py from /repo working tree -- do not edit\n',
              'use vstd::prelude::*;\n#[allow(unused_imports)]\nuse core::mem;\n#[allow(unused_imports)]\nuse vstd::arithmetic::power2::*;\n#[allow(unused_imports)]\nuse vstd::arithmetic::div_mod::*;\n#[allow(unused_imports)]\nuse vstd::arithmetic::mul::*;\n#[allow(unused_imports)]\nuse vstd::bits::*;\n#[allow(unused_imports)]\nuse vstd::set_lib::*;\nverus! {\n', prelude, '\n']
     parts += [f + '\n\n' for f in free]
     for name, fns in impls.items():
-        parts.append('impl %s {\n%s\n}\n\n' % (name, '\n\n'.join(fns)))
+        gen = '<T>' if name.endswith('<T>') else ''
+        parts.append('impl%s %s {\n%s\n}\n\n' % (gen, name, '\n\n'.join(fns)))
     for lf in u.get('lemmas', []):
         parts.append('// ---- lemma file %s ----\n' % lf)
         parts.append(open(os.path.join(VERIF, lf)).read().replace('@WIDTH@', str(width)) + '\n')
